@@ -43,7 +43,7 @@ P = {
          "D4 unclaimed."),
  "C14": ("4 C14", "proptest over well-formed ASTs; libFuzzer over token soups in thorough; oracle: occurrence list of the generating AST / reference parse, rename/eval commutation",
          "The ten iterators against the occurrence list, overwrite-through-mutable-iterator exactness, unknown-identifier errors listed, injective renaming commutes with evaluation (result, calls, final context).",
-         "Trees whose shape differs from the reference parse are C02/C05's business and skipped."),
+         "The occurrence list is that of the reference parse of the source; a tree whose shape differs from it (C02/C05's business) is still held to the source's identifiers."),
  "C15": ("4 C15", "generated read-only programs evaluated concurrently (2..16 threads) vs sequential oracle; Send + Sync decided by the check's own need to type-check",
          "Sampled schedules only: the harness does not own the scheduler. The compile-time half (eight assert_send_sync lines plus code that really shares and moves the types) is decisive; the dynamic half samples staggered concurrent evaluation of shared trees and contexts.",
          "No interleaving enumeration; loom/shuttle not applicable (no primitives to instrument)."),
